@@ -40,6 +40,9 @@ class _Reg(DynTol):
                 t = [list(t[0]) for _ in range(n)]
         if rng.random() < 0.15:                        # perfect prediction
             x = [list(r_) for r_ in t]
+        if rng.random() < 0.15:                        # all-zero targets with non-zero predictions
+            t = [[Fraction(0)] * d for _ in range(n)]
+            x = [[Fraction(rng.choice([-9, -4, -1, 1, 3, 8]), 8) for _ in range(d)] for _ in range(n)]
         b = {"x": x, "t": t, "w": None}
         if self.weighted and rng.random() < 0.6:
             b["w"] = [rng.choice(WEIGHTS) for _ in range(n)]
@@ -70,6 +73,14 @@ class _Reg(DynTol):
 
     def width(self, cfg):
         return None if cfg["_d"] == 0 else cfg["_d"]
+
+    def directed_batches(self, rng, cfg):
+        """histories that START with all-zero-target batches (non-zero predictions), then a constant and a normal one"""
+        d = max(1, cfg["_d"])
+        z = lambda n, k: {"x": [[Fraction(k + i + j, 8) for j in range(d)] for i in range(n)],
+                          "t": [[Fraction(0)] * d for _ in range(n)], "w": None}
+        c = {"x": [[Fraction(1, 2)] * d, [Fraction(-3, 8)] * d], "t": [[Fraction(5, 8)] * d] * 2, "w": None}
+        return [z(2, 1), z(1, 3), z(3, -7), c, self.gen_batch(rng, cfg, 3)]
 
 
 class MSEE(_Reg):
@@ -204,7 +215,13 @@ class PSNRE(Entry):
         if rng.random() < 0.15:
             t = [t[0]] * n                              # constant target: data_range 0 in auto mode
         x = list(t) if rng.random() < 0.15 else grid(rng, n, 8, 0, 8)
+        if rng.random() < 0.35:                         # squared errors whose sums need > 24 bits (float64 exact,
+            x = [v + 512 + Fraction(rng.randint(1, 7), 8) for v in t]      # a float32 accumulator would round)
         return {"x": x, "t": t, "rows": 2 if (n % 2 == 0 and rng.random() < 0.3) else 0}
+
+    def directed_batches(self, rng, cfg):
+        t = grid(rng, 3, 8, 0, 8)
+        return [{"x": [v + 512 + Fraction(k, 8) for v, k in zip(t, (1, 3, 5))], "t": t, "rows": 0}]
 
     def args(self, cfg, b):
         x, t = tens(b["x"], torch.float64), tens(b["t"], torch.float64)
@@ -244,12 +261,20 @@ class NEE(Entry):
     def gen_batch(self, rng, cfg, n):
         n = max(1, n)
         t = cfg["num_tasks"]
-        if cfg["from_logits"]:
-            x = [grid(rng, n, 4, -12, 12) for _ in range(t)]
-        else:
-            x = [grid(rng, n, 8, 0, 8) for _ in range(t)]          # includes the probabilities 0 and 1
         r = rng.random()
         y = [[rng.choice([0, 1]) if r > 0.25 else (0 if r < 0.12 else 1) for _ in range(n)] for _ in range(t)]
+        if cfg["from_logits"]:
+            x = [grid(rng, n, 4, -12, 12) for _ in range(t)]
+            if rng.random() < 0.4:
+                # logits of large magnitude on both sides of the label.  Every such row gets at least one confidently
+                # WRONG entry, so its cross entropy is O(|x|): an all-confidently-right row has a true loss ~1e-17 that
+                # float64 cannot hold next to 1.0 and that a degenerate (clamped) baseline would amplify beyond any tolerance.
+                big = [25, 40, 60, 100]
+                x = [[Fraction(rng.choice(big) * rng.choice([-1, 1])) if rng.random() < 0.5 else v for v in r_] for r_ in x]
+                for r_, yr in zip(x, y):
+                    r_[0] = Fraction(rng.choice(big) * (-1 if yr[0] == 1 else 1))
+        else:
+            x = [grid(rng, n, 8, 0, 8) for _ in range(t)]          # includes the probabilities 0 and 1
         w = [[rng.choice(WEIGHTS) for _ in range(n)] for _ in range(t)] if rng.random() < 0.5 else None
         return {"x": x, "y": y, "w": w}
 
@@ -283,6 +308,13 @@ class NEE(Entry):
 
     def fn_val(self, r):
         return impl_val(r.reshape(-1))
+
+    def directed_batches(self, rng, cfg):
+        t = cfg["num_tasks"]
+        big = [-100, -40, 40, 100, -60, 25] if cfg["from_logits"] else [0, 0, 1, 1, 0, 1]
+        return [{"x": [[Fraction(v) for v in big] for _ in range(t)], "y": [[0, 0, 0, 1, 1, 1] for _ in range(t)], "w": None},
+                {"x": [[Fraction(v) for v in big[::-1]] for _ in range(t)], "y": [[0, 1, 0, 1, 1, 0] for _ in range(t)],
+                 "w": [[F(1, 2), F(2), F(1), F(3), F(1, 4), F(1)] for _ in range(t)]}]
 
 
 class PerplexityE(Entry):
